@@ -22,6 +22,11 @@ class Gen:
         return '%s%06d' % (prefix, self.counter)
 
     def add(self, d, family, expect='accept', tags=()):
+        if d.get('kind') == 'bitfield' and not d.get('unstructured'):
+            if d.get('debug') and d.get('default') is not None and self.rng_order.random() < 0.5:
+                d['args_rev'] = True
+            if self.rng_order.random() < 0.06:
+                d['args_trailing_comma'] = True
         d['family'] = family
         d['expect'] = expect
         d['tags'] = list(tags)
@@ -47,6 +52,17 @@ class Gen:
             exh = rng.choice([None, 'false'])
         d = {'kind': 'enum', 'name': self.name('E'), 'bits': n, 'exh': exh,
              'variants': [{'name': 'V%d' % i, 'discr': x} for i, x in enumerate(discrs)]}
+        # the spelling of a discriminant literal and the order of the bitenum arguments are free
+        ro = self.rng_order
+        for v in d['variants']:
+            r = ro.random()
+            if r < 0.25:
+                x = v['discr']
+                dec = str(x)
+                v['discr_text'] = ro.choice([hex(x), bin(x), oct(x), '0x%X' % x,
+                                             '_'.join([dec[max(0, i - 3):i] for i in range(len(dec), 0, -3)][::-1])])
+        if exh is not None and ro.random() < 0.3:
+            d['args_rev'] = True
         if n == 64 and any(x >= (1 << 63) for x in discrs):
             d['repr'] = 'u64'
         return self.add(d, family)
@@ -98,6 +114,8 @@ class Gen:
             f['order'] = order
         if stride is not None and ro.random() < 0.2:
             f['stride_sep'] = ': '
+        if ro.random() < 0.08:
+            f['trailing_comma'] = True          # `bits(0..=3, rw,)`: an empty last argument
         return f
 
     def type_for_width(self, n, allow_bool=True):
@@ -420,13 +438,18 @@ class Gen:
         for W in ([8, 64, 128, 7, 24, 65, 100] if self.tier == 'quick' else [8, 16, 32, 64, 128, 1, 7, 9, 24, 33, 63, 65, 100, 127]):
             for value in sorted({0, 1, (1 << W) - 1, max(0, (1 << W) - 2), 1 << (W - 1), rng.getrandbits(W)}):
                 k += 1
-                form = ['lit', 'lit-hex', 'const'][k % 3]
+                form = ['lit', 'lit-hex', 'const', 'lit-bin', 'lit-underscore', 'const', 'lit-oct', 'lit-suffix', 'lit-hex-upper'][k % 9]
                 fields = [F('lo', {'k': 'bool'}, [('s', 0)])] + ([F('hi', {'k': 'bool'}, [('s', W - 1)], acc='r')] if W > 1 else [])
                 d = {'kind': 'bitfield', 'name': self.name('S'), 'base': W, 'fields': fields}
                 if form == 'const':
                     d['default'] = {'form': 'const', 'name': 'DEF_%s' % d['name'], 'value': value}
                 else:
-                    d['default'] = {'form': 'lit', 'value': value, 'text': hex(value) if form == 'lit-hex' else str(value)}
+                    dec = str(value)
+                    text = {'lit': dec, 'lit-hex': hex(value), 'lit-bin': bin(value), 'lit-oct': oct(value),
+                            'lit-hex-upper': '0x' + ('%X' % value),
+                            'lit-underscore': '_'.join([dec[max(0, i - 3):i] for i in range(len(dec), 0, -3)][::-1]),
+                            'lit-suffix': '%d_u%d' % (value, storage(W))}[form]
+                    d['default'] = {'form': 'lit', 'value': value, 'text': text}
                 if k % 4 == 0:
                     d['legacy'] = True
                 self.add(d, 'F4c', 'accept', ['default-boundary', form, 'W=%d' % W])
